@@ -7,9 +7,11 @@ SPECIAL = [
     ("K9", "union u switch (int v) { case 1: int a; };"),
     ("K9", "typedef int t; struct s { t a; t xs<>; };"),
     ("K9", "const n = 3; struct s { int a[n]; };"),
+    ("ok", "const c = 1; enum e { A = 0, B = 1 }; union u switch (unsigned int s) { case A: int a; case B: int b; };"),   # K14: compiles (and decodes wrongly: C06)
+    ("K13", "const v_1 = 2; union u switch (int d) { case 1: int a; case v_1: int b; };"),
+    ("ok", "typedef unsigned int alias; enum thing { ONE = 1, TWO = 2 }; union u switch (alias s) { case ONE: unsigned int a; case TWO: void; };"),
     ("oos", "typedef string t<4>;"),
     ("oos", "struct s { int xs<>; };"),
-    ("oos", "typedef unsigned int ui; enum e { A = 1 }; union u switch (ui d) { case A: int x; };"),
     ("oos", "union u switch (int d) { case 1: int type; case 2: int x; };"),
     ("oos", "enum e { A = 1 }; union u switch (e d) { case 1: int x; };"),
     ("oos", "struct s { s next; };"),
